@@ -411,7 +411,7 @@ def mon_c12(rec):
             if len(members) == 1 and not d.biased:
                 continue            # undefined under the unbiased estimator
             mean, cov = refs.mean_cov(d.X[members], d.biased)
-            sc = float(np.max(np.abs(d.X[members]))) + 1.0
+            sc = float(np.max(np.abs(d.X[members]))) or 1e-300
             if c.stacked_data_mean is None or np.shape(c.stacked_data_mean) != mean.shape or \
                     not np.allclose(c.stacked_data_mean, mean, rtol=0, atol=1e-10 * sc):
                 out.append((f"round {i} cluster {k}: mean is not the mean of its {len(members)} windows", None))
